@@ -167,3 +167,10 @@ func SortedKeys(m map[string]int64) []string {
 	sort.Strings(ks)
 	return ks
 }
+
+// maxWrites is a helper for max_ counters.
+func (u *Unit) MaxCounter(name string, v int64) {
+	if v > u.Counters[name] {
+		u.Counters[name] = v
+	}
+}
